@@ -270,6 +270,11 @@ def generate(tier, rng):
             else:
                 ks = [kinds[rng.randint(0, 2)] for _ in range(nf)]
             yield 'kron', {'seed': seed, 'shapes': shapes, 'kinds': ks}
+    # rectangular factors whose product is square (the dispatch must look at every factor, not at the overall shape), all kinds of factors
+    for shapes in ([[2, 3], [3, 2]], [[4, 2], [1, 2]], [[2, 3], [3, 1], [2, 4]], [[3, 3], [2, 5], [5, 2]], [[1, 4], [4, 1]], [[2, 1], [1, 2], [3, 3]]):
+        for ks in (['sparse'] * len(shapes), ['linop'] * len(shapes), [kinds[(k + 1) % 3] for k in range(len(shapes))], [kinds[(2 * k) % 3] for k in range(len(shapes))]):
+            seed += 1
+            yield 'kron', {'seed': seed, 'shapes': shapes, 'kinds': ks}
     for rep in range(30 if quick else 200):
         nf = 1 + rep % 4
         shapes, ident = [], {}
